@@ -197,7 +197,7 @@ def check(run):
         nonlocal T
         vlib.log("  %-28s %.1fs" % (what, time.time() - T))
         T = time.time()
-    vlib.cargo_build(["h_poolcb"])
+    vlib.cargo_build(["h_poolcb", "h_poolmt"])
     wd = workdir(PID, clean=True)
     thorough = run.tier == "thorough"
     maxn = 3 if thorough else 2
@@ -266,6 +266,23 @@ def check(run):
                            "predicted_by_explorer": pkeys.get(pi)})
         if rk != pkeys.get(pi) and not rp["fill"]:
             verdict_mismatch += 1
+    # --- destructor panics on one thread while other threads use the same (thread-safe) pool
+    rt = os.path.join(wd, "dtorrace.ndjson")
+    vlib.run_bin("h_poolmt", ["dtor-race", rt, "8" if thorough else "2.5"], timeout=600)
+    rrecs = [r for r in read_ndjson(rt) if r["ev"] == "dtorrace"]
+    if len(rrecs) != 3 or any(r["bombs"] == 0 or r["obs_calls"] == 0 or r["wr_calls"] == 0 for r in rrecs):
+        raise vlib.ToolError("dtor-race exercised nothing: %s" % json.dumps(rrecs)[:800])
+    ok, rejects, trr = validate_trace(D, "Trace_PoolCallbacks", rt, timeout=600)
+    run.add_tlc("Trace_PoolCallbacks dtor-race", trr, count_states=False)
+    run.cov["traces_validated_against_impl"] += len(rrecs)
+    run.cov["evaluations"] += sum(r["bombs"] + r["obs_calls"] + r["wr_calls"] for r in rrecs)
+    run.cov["dtor_race"] = {r["pool"]: {k: r[k] for k in ("bombs", "obs_calls", "wr_calls")} for r in rrecs}
+    for rj in rejects:
+        k = "dtor-panic-concurrent:managed:%s" % rj.get("why", "?")
+        real_keys[k] += 1
+        run.violation("callbacks:" + k, "%s: destructor panics on one thread, other threads use the pool -- %s" % (rj["rec"].get("pool"), json.dumps(rj["rec"])),
+                      {"mode": "dtor-race", "record": rj["rec"]})
+    lap("dtor-race")
     if len(runs) > 2:
         run.sample({"pool": rprogs[len(runs) // 2]["pool"], "prog": rprogs[len(runs) // 2]["prog"],
                     "events": [e for e in runs[len(runs) // 2][1]][:14]})
@@ -302,6 +319,16 @@ def describe(pr):
 
 def replay(path):
     rep = json.load(open(path))["replay"]
+    if rep.get("mode") == "dtor-race":
+        wd = workdir(PID, "replay_run", clean=True)
+        vlib.cargo_build(["h_poolmt"])
+        rt = os.path.join(wd, "dtorrace.ndjson")
+        vlib.run_bin("h_poolmt", ["dtor-race", rt, "8"], timeout=600)
+        ok, rejects, tr = validate_trace(D, "Trace_PoolCallbacks", rt)
+        for e in read_ndjson(rt):
+            print(json.dumps(e))
+        print("REJECTED by PoolCallbacksAbs: %s" % json.dumps(rejects[0]) if rejects else "accepted")
+        return 1 if rejects else 0
     wd = workdir(PID, "replay_run", clean=True)
     vlib.cargo_build(["h_poolcb"])
     trace = run_real(wd, [{"pool": rep["pool"], "fill": rep["fill"], "erased": rep.get("erased", False), "prog": rep["prog"]}], "replay")
